@@ -88,7 +88,7 @@ def run(ctx):
     out = rl.judge(ctx, jobs, "c28", 8 if ctx.quick else 16,
                    canary_pick=lambda j, evs: any(e["ev"] == "Keystream" and e["n"] >= 16 and e["err"] == "" for e in evs) and any(e["ev"] == "Read" and e["m"] > 0 for e in evs),
                    extra_canaries=ks_canaries)
-    if out["canaries"] < 6:
+    if out["canaries"] < 6 and not out["rej"]:
         raise vlib.Machinery("C28: the keystream canaries could not be built")
     ctx.traces += len(jobs)
     jb = {j["sc"]: j for j in jobs}
@@ -113,11 +113,13 @@ def run(ctx):
                     expect += 1
                     lens[pend] = lens.get(pend, 0) + 1
                 pend = None
-    rl.need(out["stats"], ["Init.hs", "Keystream", "Keystream.err", "KsLaw", "Nonce", "KeyUpdate", "Read.kuresp", "Read.data", "Write.multi"], "C28")
-    if not out["rej"] and out["stats"].get("KsLaw", 0) != expect:
-        raise vlib.Machinery("C28: XOR law evaluated %d times, %d query->record pairs were recorded" % (out["stats"].get("KsLaw", 0), expect))
-    if set(lens) != set(KS):
-        raise vlib.Machinery("C28: lengths whose keystream was compared with a record: %s" % sorted(lens))
+    # (with reproduced rejections the verdict stands on those; the counts below only cover accepted scenarios)
+    if not out["rej"]:
+        rl.need(out["stats"], ["Init.hs", "Keystream", "Keystream.err", "KsLaw", "Nonce", "KeyUpdate", "Read.kuresp", "Read.data", "Write.multi"], "C28")
+        if out["stats"].get("KsLaw", 0) != expect:
+            raise vlib.Machinery("C28: XOR law evaluated %d times, %d query->record pairs were recorded" % (out["stats"].get("KsLaw", 0), expect))
+        if set(lens) != set(KS):
+            raise vlib.Machinery("C28: lengths whose keystream was compared with a record: %s" % sorted(lens))
     cov = {"evaluations": out["stats"].get("KsLaw", 0), "distinct_nontrivial": len({(j["vers"], j["suite"], str(j["ops"])) for j in jobs}),
            "rule": "every AEAD suite at TLS 1.2 (incl. legacy ChaCha20) and 1.3 x %d TLC-enumerated operation sequences containing the query "
                    "(stratified over the 7 lengths); evaluations = XOR-law evaluations on recorded bytes, distinct = (suite, sequence) pairs" % per,
